@@ -148,7 +148,7 @@ class NpProxy:
 
     def full_like(self, x, fill_value, *a, **kw):
         if _has_sym(x) or _has_sym(fill_value):
-            return core.dispatch("full_like", (x, fill_value), {})
+            return core.dispatch("full_like", (x, fill_value), {"dtype": kw["dtype"]} if kw.get("dtype") is not None else {})
         return _np.full_like(x, fill_value, *a, **kw)
 
     def nditer(self, op, *a, **kw):
